@@ -1610,6 +1610,10 @@ def _str_repeat(M, fr, n, a):
 @reg(r'^std::slice::<impl \[.*\]>::join$|^alloc::slice::<impl \[.*\]>::join$|^std::slice::<impl \[.*\]>::concat$')
 def _slice_join(M, fr, n, a):
     parts = [as_str(M, x) for x in seq(M, a[0])]
+    if any(isinstance(p, SymStr) for p in parts):
+        # joining opaque names gives an opaque text (an uninterpreted function of the parts)
+        cnt = M.__dict__.setdefault('_opaque_cat', [0]); cnt[0] += 1
+        return SymStr(z3.BitVec('joined%d' % cnt[0], 32))
     sep = as_str(M, a[1]).b if len(a) > 1 else []
     out = []
     for i, p in enumerate(parts):
@@ -2514,3 +2518,32 @@ def _next_back(M, fr, n, a):
         x = base.items.pop()
         if M.branch(M.call_closure(fr, a[1], [Ref(Cell(x))])): return some(x)
     return none()
+
+@reg(r'^<.* as std::iter::Iterator>::map_while(::<.*>)?$')
+def _iter_map_while(M, fr, n, a):
+    out = []
+    it = to_iter(M, fr, a[0])
+    while True:
+        okk, x = it_next(M, fr, it)
+        if not okk: break
+        r = M.call_closure(fr, a[1], [x])
+        if not opt_is_some(M, r): break
+        out.append(r.f[0])
+    return IterV(out)
+@reg(r'^<.* as std::iter::Iterator>::scan(::<.*>)?$')
+def _iter_scan(M, fr, n, a):
+    out = []; state = Cell(a[1]); it = to_iter(M, fr, a[0])
+    while True:
+        okk, x = it_next(M, fr, it)
+        if not okk: break
+        r = M.call_closure(fr, a[2], [Ref(state), x])
+        if not opt_is_some(M, r): break
+        out.append(r.f[0])
+    return IterV(out)
+
+@reg(r'^<std::string::String as std::ops::Add<&str>>::add$|^<std::string::String as std::ops::AddAssign<&str>>::add_assign$')
+def _string_add(M, fr, n, a):
+    if n.endswith('add_assign'): return _push_str(M, fr, 'std::string::String::push_str', a)
+    d, s_ = as_str(M, a[0]), as_str(M, a[1])
+    if isinstance(d, SymStr) or isinstance(s_, SymStr): raise Unsupported('concatenation with an opaque (unmodelled format!) string')
+    return Str(list(d.b) + list(s_.b))
